@@ -161,6 +161,24 @@ func runSelfCases(prop string, verbose bool, workers int) (int, int, []string) {
 				res[k] = fmt.Sprint("SELFTEST-ERROR ", err)
 				return
 			}
+			// A must-fail case is settled as soon as an obligation of the named function fails:
+			// try that function alone first, and run the whole property only if that does not
+			// produce the expected failure (must-pass cases always run the whole property).
+			if sc.expect == "fail" && sc.needle != "" {
+				if tok := onlyToken(sc.needle); tok != "" {
+					var b2 bytes.Buffer
+					o2 := &CheckOpts{ID: sc.property, Tier: "quick", Out: &b2, Overlay: ov, NoEvidence: true, Only: tok}
+					if runCheckOpts(o2) == 1 {
+						for _, f := range o2.Failed {
+							if strings.Contains(f, sc.needle) {
+								okv[k] = true
+								res[k] = fmt.Sprintf("selftest ok   %-50s %s %v", rel, sc.expect, o2.Failed)
+								return
+							}
+						}
+					}
+				}
+			}
 			var buf bytes.Buffer
 			opts := &CheckOpts{ID: sc.property, Tier: "quick", Out: &buf, Overlay: ov, NoEvidence: true}
 			code := runCheckOpts(opts)
@@ -210,4 +228,26 @@ func runSelfCases(prop string, verbose bool, workers int) (int, int, []string) {
 		lines = append(lines, res[k])
 	}
 	return len(jobs), bad, lines
+}
+
+// onlyToken extracts the last identifier of the function named by a must-fail needle
+// ("core/vm.(*EVM).Call : post#2" -> "Call"), usable as a --only filter; "" if there is none.
+func onlyToken(needle string) string {
+	s := needle
+	if i := strings.Index(s, " :"); i >= 0 {
+		s = s[:i]
+	}
+	s = strings.TrimSpace(s)
+	if i := strings.LastIndexAny(s, ".)/ "); i >= 0 {
+		s = s[i+1:]
+	}
+	if s == "" {
+		return ""
+	}
+	for _, c := range s {
+		if !(c == '_' || c == '$' || (c >= '0' && c <= '9') || (c >= 'a' && c <= 'z') || (c >= 'A' && c <= 'Z')) {
+			return ""
+		}
+	}
+	return s
 }
